@@ -21,7 +21,7 @@ import pickle
 import sys
 import weakref
 
-sys.path.insert(0, "/repo")
+sys.path.insert(0, __import__("os").environ.get("VERIF_REPO", "/repo"))
 from collections import OrderedDict  # noqa: E402
 
 import numpy as np  # noqa: E402
